@@ -79,6 +79,7 @@ structure BucketOK (m w : Nat) (q : Bits) (b : Bucket) : Prop where
   own : ∀ n ∈ b.nodes, n.id.length = w ∧ q <+: n.id
   nodup : (b.nodes.map (·.id)).Nodup
   depth : q.length ≤ w
+  capEq : b.cap = m
 
 /-- the trie below key `q` is a full binary tree whose leaves are buckets and whose inner nodes (the buckets that were
     split) all lie on the path of the own identifier `me` -/
@@ -298,6 +299,7 @@ theorem BucketOK.of_sublist {q : Bits} {b : Bucket} {ns : List Node} (h : Bucket
   own := fun n hn => h.own n (hs.subset hn)
   nodup := (h.nodup).sublist (hs.map _)
   depth := h.depth
+  capEq := h.capEq
 
 theorem BucketOK.append {q : Bits} {b : Bucket} {n : Node} (h : BucketOK m w q b) (hl : b.nodes.length < m)
     (hw : n.id.length = w) (hq : q <+: n.id) (hn : ∀ x ∈ b.nodes, x.id ≠ n.id) :
@@ -319,6 +321,7 @@ theorem BucketOK.append {q : Bits} {b : Bucket} {n : Node} (h : BucketOK m w q b
     subst hc
     exact hn x hx
   depth := h.depth
+  capEq := h.capEq
 
 theorem owns_iff (b : Bucket) (id : Bits) : b.owns id = true ↔ b.pfx <+: id := by
   simp [Bucket.owns, List.isPrefixOf_iff_prefix]
@@ -346,14 +349,14 @@ theorem fresh_of_any {b : Bucket} {n : Node} (hany : ¬ (b.nodes.any (fun x => x
 
 /-- `Bucket.add` keeps a bucket good -/
 theorem BucketOK.add {q : Bits} {b : Bucket} (h : BucketOK m w q b) (n : Node) (hw : n.id.length = w) :
-    BucketOK m w q (b.add m n).1 := by
+    BucketOK m w q (b.addM m n).1 := by
   by_cases hown : b.owns n.id = true
   · have hq : q <+: n.id := by
       have := (owns_iff b n.id).mp hown
       rwa [h.pfx] at this
     by_cases hany : (b.nodes.any (fun x => x.id == n.id)) = true
-    · simp only [Bucket.add, hown, hany, Bool.not_true, Bool.false_eq_true, if_false, if_true]
-      refine ⟨h.pfx, by simpa using h.cap, ?_, ?_, h.depth⟩
+    · simp only [Bucket.addM, hown, hany, Bool.not_true, Bool.false_eq_true, if_false, if_true]
+      refine ⟨h.pfx, by simpa using h.cap, ?_, ?_, h.depth, h.capEq⟩
       · intro x hx
         simp at hx
         obtain ⟨y, hy, rfl⟩ := hx
@@ -364,33 +367,33 @@ theorem BucketOK.add {q : Bits} {b : Bucket} (h : BucketOK m w q b) (n : Node) (
         rw [map_addr_ids]; exact h.nodup
     · have hok2 := h.of_sublist (evicted_sublist m b n)
       by_cases hlt : (Bucket.evicted m b n).length < m
-      · simp only [Bucket.add, hown, hany, hlt, Bool.not_true, Bool.false_eq_true, if_false, if_true]
+      · simp only [Bucket.addM, hown, hany, hlt, Bool.not_true, Bool.false_eq_true, if_false, if_true]
         exact BucketOK.append (b := { b with nodes := Bucket.evicted m b n }) hok2 hlt hw hq
           (fun x hx => fresh_of_any hany x ((evicted_sublist m b n).subset hx))
-      · simp only [Bucket.add, hown, hany, hlt, Bool.not_true, Bool.false_eq_true, if_false]
+      · simp only [Bucket.addM, hown, hany, hlt, Bool.not_true, Bool.false_eq_true, if_false]
         exact hok2
-  · simp only [Bucket.add, hown, Bool.not_false, if_true]
+  · simp only [Bucket.addM, hown, Bool.not_false, if_true]
     simpa using h
 
 /-- a refused `add` changed nothing, and the bucket is full of other identifiers -/
-theorem add_refused {q : Bits} {b : Bucket} (h : BucketOK m w q b) (n : Node) (hf : (b.add m n).2 = false) :
-    (b.add m n).1 = b ∧ (b.owns n.id = true → m ≤ b.nodes.length ∧ ∀ x ∈ b.nodes, x.id ≠ n.id) := by
+theorem add_refused {q : Bits} {b : Bucket} (h : BucketOK m w q b) (n : Node) (hf : (b.addM m n).2 = false) :
+    (b.addM m n).1 = b ∧ (b.owns n.id = true → m ≤ b.nodes.length ∧ ∀ x ∈ b.nodes, x.id ≠ n.id) := by
   by_cases hown : b.owns n.id = true
   · by_cases hany : (b.nodes.any (fun x => x.id == n.id)) = true
-    · simp [Bucket.add, hown, hany] at hf
+    · simp [Bucket.addM, hown, hany] at hf
     · by_cases hlt : (Bucket.evicted m b n).length < m
-      · simp [Bucket.add, hown, hany, hlt] at hf
+      · simp [Bucket.addM, hown, hany, hlt] at hf
       · have hsub := evicted_sublist m b n
         have hlen : (Bucket.evicted m b n).length = b.nodes.length := by
           have := hsub.length_le; have := h.cap; omega
         have heq : Bucket.evicted m b n = b.nodes := hsub.eq_of_length hlen
-        simp only [Bucket.add, hown, hany, hlt, Bool.not_true, Bool.false_eq_true, if_false]
+        simp only [Bucket.addM, hown, hany, hlt, Bool.not_true, Bool.false_eq_true, if_false]
         refine ⟨by simp [heq], fun _ => ⟨by omega, fresh_of_any hany⟩⟩
-  · simp only [Bucket.add, hown, Bool.not_false, if_true]
+  · simp only [Bucket.addM, hown, Bool.not_false, if_true]
     exact ⟨trivial, fun ho => absurd ho (by simp)⟩
 
 theorem add_fresh {b : Bucket} {n : Node} (hown : b.owns n.id = true) (hfresh : ∀ x ∈ b.nodes, x.id ≠ n.id)
-    (hlt : b.nodes.length < m) : b.add m n = ({ b with nodes := b.nodes ++ [n] }, true) := by
+    (hlt : b.nodes.length < m) : b.addM m n = ({ b with nodes := b.nodes ++ [n] }, true) := by
   have hany : ¬ (b.nodes.any (fun x => x.id == n.id)) = true := by
     intro ha
     simp only [List.any_eq_true] at ha
@@ -399,18 +402,19 @@ theorem add_fresh {b : Bucket} {n : Node} (hown : b.owns n.id = true) (hfresh : 
   have hev : Bucket.evicted m b n = b.nodes := by
     unfold Bucket.evicted
     rw [if_neg (by omega)]
-  simp [Bucket.add, hown, hany, hev, hlt]
+  simp [Bucket.addM, hown, hany, hev, hlt]
 
 /-- the children of a split, stated directly -/
-def child0 (q : Bits) (ns : List Node) : Bucket :=
-  { pfx := q ++ [false], nodes := ns.filter (fun n => (q ++ [false]).isPrefixOf n.id) }
-def child1 (q : Bits) (ns : List Node) : Bucket :=
-  { pfx := q ++ [true], nodes := ns.filter (fun n => !(q ++ [false]).isPrefixOf n.id && (q ++ [true]).isPrefixOf n.id) }
+def child0 (m : Nat) (q : Bits) (ns : List Node) : Bucket :=
+  { pfx := q ++ [false], nodes := ns.filter (fun n => (q ++ [false]).isPrefixOf n.id), cap := m }
+def child1 (m : Nat) (q : Bits) (ns : List Node) : Bucket :=
+  { pfx := q ++ [true], nodes := ns.filter (fun n => !(q ++ [false]).isPrefixOf n.id && (q ++ [true]).isPrefixOf n.id),
+    cap := m }
 
 theorem split_fold (q : Bits) (l x y : List Node) (hx : x.length + l.length ≤ m) (hy : y.length + l.length ≤ m)
     (hl : (l.map (·.id)).Nodup) (hxl : ∀ a ∈ x, ∀ n ∈ l, a.id ≠ n.id) (hyl : ∀ a ∈ y, ∀ n ∈ l, a.id ≠ n.id) :
-    l.foldl (Bucket.splitStep m) ({ pfx := q ++ [false], nodes := x }, { pfx := q ++ [true], nodes := y })
-      = ({ pfx := q ++ [false], nodes := x ++ (child0 q l).nodes }, { pfx := q ++ [true], nodes := y ++ (child1 q l).nodes }) := by
+    l.foldl Bucket.splitStep ({ pfx := q ++ [false], nodes := x, cap := m }, { pfx := q ++ [true], nodes := y, cap := m })
+      = ({ pfx := q ++ [false], nodes := x ++ (child0 m q l).nodes, cap := m }, { pfx := q ++ [true], nodes := y ++ (child1 m q l).nodes, cap := m }) := by
   induction l generalizing x y with
   | nil => simp [child0, child1]
   | cons n l ih =>
@@ -421,11 +425,11 @@ theorem split_fold (q : Bits) (l x y : List Node) (hx : x.length + l.length ≤ 
       exact hl.1 (by simp only [mem_map]; exact ⟨n', hn', he.symm⟩)
     simp only [foldl_cons]
     by_cases h0 : (q ++ [false]).isPrefixOf n.id = true
-    · have hstep : Bucket.splitStep m ({ pfx := q ++ [false], nodes := x }, { pfx := q ++ [true], nodes := y }) n
-          = ({ pfx := q ++ [false], nodes := x ++ [n] }, { pfx := q ++ [true], nodes := y }) := by
-        have := add_fresh (m := m) (b := { pfx := q ++ [false], nodes := x }) (n := n) (by simpa [Bucket.owns] using h0)
+    · have hstep : Bucket.splitStep ({ pfx := q ++ [false], nodes := x, cap := m }, { pfx := q ++ [true], nodes := y, cap := m }) n
+          = ({ pfx := q ++ [false], nodes := x ++ [n], cap := m }, { pfx := q ++ [true], nodes := y, cap := m }) := by
+        have := add_fresh (m := m) (b := { pfx := q ++ [false], nodes := x, cap := m }) (n := n) (by simpa [Bucket.owns] using h0)
           (fun a ha => hxl a ha n (by simp)) (by simp; omega)
-        simp only [Bucket.splitStep, Bucket.owns, h0, if_true, this]
+        simp only [Bucket.splitStep, Bucket.owns, Bucket.add, h0, if_true, this]
       rw [hstep, ih (x ++ [n]) y (by simp; omega) (by omega) hl.2]
       · simp [child0, child1, h0]
       · intro a ha n' hn'
@@ -435,11 +439,11 @@ theorem split_fold (q : Bits) (l x y : List Node) (hx : x.length + l.length ≤ 
         · exact hnl n' hn'
       · intro a ha n' hn'; exact hyl a ha n' (by simp [hn'])
     · by_cases h1 : (q ++ [true]).isPrefixOf n.id = true
-      · have hstep : Bucket.splitStep m ({ pfx := q ++ [false], nodes := x }, { pfx := q ++ [true], nodes := y }) n
-            = ({ pfx := q ++ [false], nodes := x }, { pfx := q ++ [true], nodes := y ++ [n] }) := by
-          have := add_fresh (m := m) (b := { pfx := q ++ [true], nodes := y }) (n := n) (by simpa [Bucket.owns] using h1)
+      · have hstep : Bucket.splitStep ({ pfx := q ++ [false], nodes := x, cap := m }, { pfx := q ++ [true], nodes := y, cap := m }) n
+            = ({ pfx := q ++ [false], nodes := x, cap := m }, { pfx := q ++ [true], nodes := y ++ [n], cap := m }) := by
+          have := add_fresh (m := m) (b := { pfx := q ++ [true], nodes := y, cap := m }) (n := n) (by simpa [Bucket.owns] using h1)
             (fun a ha => hyl a ha n (by simp)) (by simp; omega)
-          simp only [Bucket.splitStep, Bucket.owns, h0, h1, if_true, this]
+          simp only [Bucket.splitStep, Bucket.owns, Bucket.add, h0, h1, if_true, this]
           simp
         rw [hstep, ih x (y ++ [n]) (by omega) (by simp; omega) hl.2]
         · simp [child0, child1, h0, h1]
@@ -449,8 +453,8 @@ theorem split_fold (q : Bits) (l x y : List Node) (hx : x.length + l.length ≤ 
           rcases ha with ha | rfl
           · exact hyl a ha n' (by simp [hn'])
           · exact hnl n' hn'
-      · have hstep : Bucket.splitStep m ({ pfx := q ++ [false], nodes := x }, { pfx := q ++ [true], nodes := y }) n
-            = ({ pfx := q ++ [false], nodes := x }, { pfx := q ++ [true], nodes := y }) := by
+      · have hstep : Bucket.splitStep ({ pfx := q ++ [false], nodes := x, cap := m }, { pfx := q ++ [true], nodes := y, cap := m }) n
+            = ({ pfx := q ++ [false], nodes := x, cap := m }, { pfx := q ++ [true], nodes := y, cap := m }) := by
           simp [Bucket.splitStep, Bucket.owns, h0, h1]
         rw [hstep, ih x y (by omega) (by omega) hl.2]
         · simp [child0, child1, h0, h1]
@@ -459,15 +463,15 @@ theorem split_fold (q : Bits) (l x y : List Node) (hx : x.length + l.length ≤ 
 
 /-- `Bucket.split` of a full good bucket: the two halves by the next identifier bit -/
 theorem split_spec {q : Bits} {b : Bucket} (h : BucketOK m w q b) (hfull : m ≤ b.nodes.length) :
-    b.split m = some (child0 q b.nodes, child1 q b.nodes) := by
+    b.split = some (child0 m q b.nodes, child1 m q b.nodes) := by
   unfold Bucket.split
-  rw [if_neg (by omega), h.pfx]
+  rw [h.capEq, if_neg (by omega), h.pfx]
   have := split_fold (m := m) q b.nodes [] [] (by simpa using h.cap) (by simpa using h.cap) h.nodup (by simp) (by simp)
   simp only [this, nil_append]
   rfl
 
 theorem child0_ok {q : Bits} {b : Bucket} (h : BucketOK m w q b) (hd : q.length < w) :
-    BucketOK m w (q ++ [false]) (child0 q b.nodes) where
+    BucketOK m w (q ++ [false]) (child0 m q b.nodes) where
   pfx := rfl
   cap := Nat.le_trans (List.length_filter_le _ _) h.cap
   own := by
@@ -476,9 +480,10 @@ theorem child0_ok {q : Bits} {b : Bucket} (h : BucketOK m w q b) (hd : q.length 
     exact ⟨(h.own n hn.1).1, List.isPrefixOf_iff_prefix.mp hn.2⟩
   nodup := h.nodup.sublist ((List.filter_sublist).map _)
   depth := by simp; omega
+  capEq := rfl
 
 theorem child1_ok {q : Bits} {b : Bucket} (h : BucketOK m w q b) (hd : q.length < w) :
-    BucketOK m w (q ++ [true]) (child1 q b.nodes) where
+    BucketOK m w (q ++ [true]) (child1 m q b.nodes) where
   pfx := rfl
   cap := Nat.le_trans (List.length_filter_le _ _) h.cap
   own := by
@@ -487,6 +492,7 @@ theorem child1_ok {q : Bits} {b : Bucket} (h : BucketOK m w q b) (hd : q.length 
     exact ⟨(h.own n hn.1).1, List.isPrefixOf_iff_prefix.mp hn.2.2⟩
   nodup := h.nodup.sublist ((List.filter_sublist).map _)
   depth := by simp; omega
+  capEq := rfl
 
 /-- a full bucket that refuses a newcomer it owns is not at the maximal depth -/
 theorem depth_lt_of_refused {q : Bits} {b : Bucket} {n : Node} (h : BucketOK m w q b) (hm : 1 ≤ m) (hw : n.id.length = w)
@@ -508,6 +514,9 @@ theorem depth_lt_of_refused {q : Bits} {b : Bucket} {n : Node} (h : BucketOK m w
 
 /-! ## RoutingTable.add -/
 
+theorem leaf_get' {t : Trie Bucket} {k : Bits} {b : Bucket} (h : t.find k = leafT b) : t.get k = some b := by
+  simp [Trie.get, h, leafT, Trie.value]
+
 theorem prefix_snoc_of_lt {p s : Bits} (hp : p <+: s) (hl : p.length < s.length) : ∃ c, p ++ [c] <+: s := by
   obtain ⟨r, rfl⟩ := hp
   cases r with
@@ -524,8 +533,10 @@ def AddRes.fine : AddRes → Prop
 theorem addFuel_inv (hm : 1 ≤ m) (n : Node) (hw : n.id.length = w) :
     ∀ (fuel : Nat) (rt : RT), WF m w rt.me [] rt.trie →
       (∀ p b, getBucketT rt.trie n.id = some (p, b) → w - p.length < fuel) →
-      WF m w rt.me [] (rt.addFuel m fuel n).1.trie ∧ (rt.addFuel m fuel n).1.me = rt.me ∧
-        (rt.addFuel m fuel n).2.fine := by
+      WF m w rt.me [] (rt.addFuel fuel n).1.trie ∧ (rt.addFuel fuel n).1.me = rt.me ∧
+        (rt.addFuel fuel n).2.fine ∧
+        (∀ x, (rt.addFuel fuel n).2 = .stored x → x.id = n.id ∧
+          ∃ k b, (rt.addFuel fuel n).1.trie.get k = some b ∧ x ∈ b.nodes) := by
   intro fuel
   induction fuel with
   | zero =>
@@ -538,15 +549,25 @@ theorem addFuel_inv (hm : 1 ≤ m) (n : Node) (hw : n.id.length = w) :
     obtain ⟨p, b, hg, hpn, hfind⟩ := hwf.getBucket (s := n.id) (by simpa using hw)
     have hlt := hfuel p b hg
     have hb : BucketOK m w p b := by simpa using hwf.find_leaf hfind
-    have hb' : BucketOK m w p (b.add m n).1 := hb.add n hw
-    obtain ⟨hwf', hfind'⟩ := hwf.set_leaf hfind (b' := (b.add m n).1) (by simpa using hb')
+    have hb' : BucketOK m w p (b.addM m n).1 := hb.add n hw
+    obtain ⟨hwf', hfind'⟩ := hwf.set_leaf hfind (b' := (b.addM m n).1) (by simpa using hb')
     have hgb : rt.getBucket n.id = some (p, b) := hg
-    simp only [RT.addFuel, hgb]
-    by_cases hok : (b.add m n).2 = true
+    have hadd : b.add n = b.addM m n := by simp [Bucket.add, hb.capEq]
+    simp only [RT.addFuel, hgb, hadd]
+    by_cases hok : (b.addM m n).2 = true
     · simp only [hok, if_true]
-      refine ⟨hwf', by trivial, ?_⟩
-      cases (b.add m n).1.get n.id <;> trivial
-    · have hok' : (b.add m n).2 = false := by simpa using hok
+      refine ⟨hwf', by trivial, ?_, ?_⟩
+      · cases (b.addM m n).1.get n.id <;> trivial
+      · intro x hx
+        cases hget : (b.addM m n).1.get n.id with
+        | none => simp [hget] at hx
+        | some y =>
+          simp [hget] at hx
+          subst hx
+          have hy := List.find?_some hget
+          have hmem := List.mem_of_find?_eq_some hget
+          exact ⟨by simpa using hy, p, (b.addM m n).1, leaf_get' hfind', hmem⟩
+    · have hok' : (b.addM m n).2 = false := by simpa using hok
       obtain ⟨heq, hfull⟩ := add_refused hb n hok'
       simp only [hok', Bool.false_eq_true, if_false]
       rw [heq] at hwf' hfind' ⊢
@@ -560,9 +581,9 @@ theorem addFuel_inv (hm : 1 ≤ m) (n : Node) (hw : n.id.length = w) :
         have hpme : [] ++ p <+: rt.me := by
           have := (owns_iff b rt.me).mp hme
           rw [hb.pfx] at this; simpa using this
-        obtain ⟨t', hdel, hwft, hf0, hf1⟩ := hwf'.split_leaf hfind' (b0 := child0 p b.nodes) (b1 := child1 p b.nodes)
+        obtain ⟨t', hdel, hwft, hf0, hf1⟩ := hwf'.split_leaf hfind' (b0 := child0 m p b.nodes) (b1 := child1 m p b.nodes)
           (by simpa using child0_ok hb hdepth) (by simpa using child1_ok hb hdepth) hpme
-        have hdel' : (((rt.trie.set p b).set (p ++ [false]) (child0 p b.nodes)).set (p ++ [true]) (child1 p b.nodes)).del p
+        have hdel' : (((rt.trie.set p b).set (p ++ [false]) (child0 m p b.nodes)).set (p ++ [true]) (child1 m p b.nodes)).del p
             = (t', false) := by
           simp only [Trie.del, hdel, hwft.not_empty]
         simp only [hdel', Bool.false_eq_true, if_false]
@@ -583,7 +604,7 @@ theorem addFuel_inv (hm : 1 ≤ m) (n : Node) (hw : n.id.length = w) :
           simp; omega)
         exact this
       · simp only [hme, Bool.false_eq_true, if_false]
-        exact ⟨hwf', by trivial, trivial⟩
+        exact ⟨hwf', by trivial, trivial, by intro x hx; cases hx⟩
 
 /-! ## the other operations, and histories -/
 
@@ -610,7 +631,7 @@ theorem setNode_inv (rt : RT) (id : Bits) (failed : Nat) (recent : Bool) (rtt : 
     WF m w rt.me [] (rt.setNode id failed recent rtt).trie := by
   apply WF.mapVals _ _ h
   intro q b hb
-  refine ⟨hb.pfx, by simpa using hb.cap, ?_, ?_, hb.depth⟩
+  refine ⟨hb.pfx, by simpa using hb.cap, ?_, ?_, hb.depth, hb.capEq⟩
   · intro x hx
     simp at hx
     obtain ⟨y, hy, rfl⟩ := hx
@@ -620,21 +641,22 @@ theorem setNode_inv (rt : RT) (id : Bits) (failed : Nat) (recent : Bool) (rtt : 
   · show ((b.nodes.map _).map _).Nodup
     rw [map_set_ids]; exact hb.nodup
 
-theorem init_inv (me : Bits) : WF m w me [] (RT.init me).trie := by
-  refine WF.leaf ⟨rfl, by simp, by simp, by simp, by simp⟩
+theorem init_inv (me : Bits) : WF m w me [] (RT.init me m).trie := by
+  refine WF.leaf ⟨rfl, by simp, by simp, by simp, by simp, rfl⟩
 
 def Op.valid (w : Nat) : Op → Prop
   | .add n => n.id.length = w
   | _ => True
 
 theorem add_inv (hm : 1 ≤ m) (rt : RT) (n : Node) (hw : n.id.length = w) (h : WF m w rt.me [] rt.trie) :
-    WF m w rt.me [] (rt.add m n).1.trie ∧ (rt.add m n).1.me = rt.me ∧ (rt.add m n).2.fine := by
+    WF m w rt.me [] (rt.add n).1.trie ∧ (rt.add n).1.me = rt.me ∧ (rt.add n).2.fine ∧
+      (∀ x, (rt.add n).2 = .stored x → x.id = n.id ∧ ∃ k b, (rt.add n).1.trie.get k = some b ∧ x ∈ b.nodes) := by
   apply addFuel_inv hm n hw _ rt h
   intro p b _
   omega
 
 theorem step_inv (hm : 1 ≤ m) (rt : RT) (op : Op) (hv : op.valid w) (h : WF m w rt.me [] rt.trie) :
-    WF m w (step m rt op).me [] (step m rt op).trie ∧ (step m rt op).me = rt.me := by
+    WF m w (step rt op).me [] (step rt op).trie ∧ (step rt op).me = rt.me := by
   cases op with
   | add n =>
     have := add_inv hm rt n hv h
@@ -643,20 +665,20 @@ theorem step_inv (hm : 1 ≤ m) (rt : RT) (op : Op) (hv : op.valid w) (h : WF m 
   | setNode id failed recent rtt => exact ⟨setNode_inv rt id failed recent rtt h, rfl⟩
 
 theorem run_inv' (hm : 1 ≤ m) (ops : List Op) (rt : RT) (hv : ∀ op ∈ ops, op.valid w) (h : WF m w rt.me [] rt.trie) :
-    WF m w rt.me [] (run m rt ops).trie ∧ (run m rt ops).me = rt.me := by
+    WF m w rt.me [] (run rt ops).trie ∧ (run rt ops).me = rt.me := by
   induction ops generalizing rt with
   | nil => exact ⟨h, rfl⟩
   | cons op ops ih =>
     have hs := step_inv hm rt op (hv op (by simp)) h
-    have := ih (step m rt op) (fun o ho => hv o (by simp [ho])) hs.1
+    have := ih (step rt op) (fun o ho => hv o (by simp [ho])) hs.1
     simp only [run, foldl_cons] at this ⊢
     rw [hs.2] at this
     exact this
 
 /-- the invariant holds after every history -/
 theorem run_inv (hm : 1 ≤ m) (me : Bits) (ops : List Op) (hv : ∀ op ∈ ops, op.valid w) :
-    WF m w me [] (run m (RT.init me) ops).trie ∧ (run m (RT.init me) ops).me = me :=
-  run_inv' hm ops (RT.init me) hv (init_inv me)
+    WF m w me [] (run (RT.init me m) ops).trie ∧ (run (RT.init me m) ops).me = me :=
+  run_inv' hm ops (RT.init me m) hv (init_inv me)
 
 /-! ## reading the property off the invariant -/
 
